@@ -20,7 +20,7 @@ META = {
                    "of cross and dot products of the integer data; calls with the arguments in the other order are the "
                    "cases (d2, d1), and the exact classification is shown to be independent of the order",
     "assumptions": ["floats as exact reals", "integer coordinates in [-B, B]: B = 2 (2-d) / 1 (3-d) in the quick tier, "
-                    "4 / 2 in the thorough tier", "both segments have positive length"],
+                    "4 / 2 in the thorough tier (3-d thorough: every fifth pair of directions)", "both segments have positive length"],
     "stubs": ["np.sqrt of a concrete integer (segment lengths in segments_2d): fresh r >= 0 with r*r equal to it"],
     "outside": ["non-integer coordinates / near-degenerate configurations inside the tolerance band",
                 "coordinates outside the box",
@@ -160,7 +160,12 @@ def harness(ctx, shard, d1, d2, order):
 def run_shard(ex, shard):
     dirs = _dirs(shard["dim"], shard["B"])
     n = len(dirs)
-    for idx in range(shard["chunk"], n * n, shard["of"]):
+    stride = 1
+    if n * n > 120000:
+        # thorough 3-d box: every first direction with a fixed-stride sample of second directions
+        # (stride coprime to n, so every direction also occurs as second direction)
+        stride = 5
+    for idx in range(shard["chunk"] * stride, n * n, shard["of"] * stride):
         d1, d2 = dirs[idx // n], dirs[idx % n]
         B = shard["B"]
         if any(abs(x) > 2 * B for x in d1 + d2):
